@@ -11,7 +11,7 @@ ids="$@"
 for id in $ids; do
   P=${id%-*}
   git -C $W checkout -q -- . ; git -C $W clean -fdq
-  git -C $W apply benign/$id.diff || { echo "$id APPLY-FAILED"; continue; }
+  git -C $W apply /verif/benign/$id.diff || { echo "$id APPLY-FAILED"; continue; }
   out=$(VERIF_REPO=$W bin/vcheck -prop $P -tier quick -repo $W -no-evidence -replaydir $W.replay/$id 2>&1); rc=$?
   if [ $rc -eq 0 ]; then echo "$id quiet"; else echo "$id FALSE-ALARM rc=$rc"; echo "$out" | grep '^VIOLATION\|machinery' | cut -c1-300; fi
 done
